@@ -331,6 +331,24 @@ def handle (cmd : String) (args : List String) : Option String :=
           (if t.ligs.isEmpty then "-" else " / ".intercalate (t.ligs.map (fun comps =>
             if comps.isEmpty then "-" else " , ".intercalate (comps.map (fun r => joinNats (r.map (fun a => a.getD 0))))))) ++
           " | " ++ (if res.isEmpty then "-" else " ".intercalate res))
+  | "ppf2.dpoints", some [ctbl, cdtbl, [k2, recSize, cd2Size], flags, devIds, devSizes] =>
+    -- the size loop of `split_pair_pos_format_2` with device tables: cell `n` (row-major) has
+    -- popcount(flags[n]) non-null device offsets, `devIds` / `devSizes` = the subtable's offset list
+    -- after coverage + class defs (object ids, byte lengths); answers the piece ends and the
+    -- estimated size of every piece
+    match parseCoverage? ctbl, parseClassDef? cdtbl with
+    | some c, some cd =>
+      if k2 = 0 || devIds.length ≠ devSizes.length then none else
+      let gc := c.glyphs.map (fun g => (g, cd.get g))
+      let pop := fun (f : Nat) => ((bits4 (f % 16)) ++ (bits4 (f / 16 % 16))).count true
+      let rowCounts := (chunks k2 flags).map (fun r => (r.map pop).sum)
+      let devs := devIds.zip devSizes
+      let rows := (rowCounts.foldl (fun (acc : List (List (Nat × Nat)) × List (Nat × Nat)) n =>
+        (acc.1 ++ [acc.2.take n], acc.2.drop n)) ([], devs)).1
+      some (match ppf2DPieces true gc recSize cd2Size rows with
+        | none => "none"
+        | some ps => joinNats (ps.map (·.2.1)) ++ " | " ++ joinNats (ps.map (·.2.2)))
+    | _, _ => none
   | "mb.split", some (mctbl :: [classCount] :: pts :: marks :: rows) =>
     -- `split_off_mark_pos` for every range of the given split points; mark record `i` = (class,
     -- anchor id), base row = anchor ids per class with 0 = null
